@@ -27,6 +27,12 @@ func (j *joypRun) do(op string) string {
 			j.ctl.WriteJOYP(uint8(unhex(w[1])))
 		case "b":
 			j.ctl.ButtonAction(controller.Button(atoi(w[1])), w[2] != "0")
+		case "e": // a key event with NO read after it (several events may arrive between two polls)
+			j.ctl.ButtonAction(controller.Button(atoi(w[1])), w[2] != "0")
+			return "ok"
+		case "q": // a select write with no read after it
+			j.ctl.WriteJOYP(uint8(unhex(w[1])))
+			return "ok"
 		default:
 			return "bad-op"
 		}
@@ -98,6 +104,26 @@ func joypGen(c *ctx) {
 	}
 	c.notes["abstract_states_enumerated"] = states
 	c.notes["exhaustive_space"] = "4 select settings x 9 direction states x 16 button states, x (16 events + 256 writes)"
+	// Part 1b: every ordered pair of key events (and a sample of triples) WITHOUT a read in between, from every
+	// direction state, observed under all four select settings afterwards
+	for _, ds := range dirStates {
+		for e1 := 0; e1 < 16; e1++ {
+			for e2 := 0; e2 < 16; e2++ {
+				j.do("reset")
+				for _, d := range ds {
+					j.do(fmt.Sprintf("e %d 1", d))
+				}
+				j.do(fmt.Sprintf("e %d %d", e1/2, e1%2))
+				j.do(fmt.Sprintf("e %d %d", e2/2, e2%2))
+				if (e1+e2)%5 == 0 {
+					j.do(fmt.Sprintf("e %d %d", c.rng.intn(8), c.rng.intn(2)))
+				}
+				for _, sl := range []int{0x00, 0x10, 0x20, 0x30} {
+					j.do(fmt.Sprintf("w %02x", sl))
+				}
+			}
+		}
+	}
 	// Part 2: seeded random walks.
 	walks, steps := 20, 2000
 	if c.thorough() {
@@ -106,10 +132,15 @@ func joypGen(c *ctx) {
 	for w := 0; w < walks; w++ {
 		j.do("reset")
 		for s := 0; s < steps; s++ {
-			if c.rng.chance(30) {
+			switch r := c.rng.intn(100); {
+			case r < 25:
 				j.do(fmt.Sprintf("w %02x", c.rng.byte()))
-			} else {
+			case r < 50:
 				j.do(fmt.Sprintf("b %d %d", c.rng.intn(8), c.rng.intn(2)))
+			case r < 95:
+				j.do(fmt.Sprintf("e %d %d", c.rng.intn(8), c.rng.intn(2)))
+			default:
+				j.do(fmt.Sprintf("q %02x", c.rng.byte()))
 			}
 		}
 	}
